@@ -167,6 +167,15 @@ func (f *fakeClient) next(ctx context.Context) (fakeOutcome, int) {
 	return o, idx
 }
 
+// outcomeErrCtx: a server that never answered ends the call with whatever ended the caller's context
+// (deadline exceeded or cancelled), as a real client does
+func outcomeErrCtx(ctx context.Context, o fakeOutcome) error {
+	if o == foSlow && ctx != nil && ctx.Err() != nil {
+		return ctx.Err()
+	}
+	return outcomeErr(o)
+}
+
 func outcomeErr(o fakeOutcome) error {
 	switch o {
 	case foSvcErr:
@@ -211,7 +220,7 @@ func (f *fakeClient) Call(ctx context.Context, servicePath, serviceMethod string
 			r.Addr = f.addr
 		}
 	}
-	return outcomeErr(o)
+	return outcomeErrCtx(ctx, o)
 }
 
 func (f *fakeClient) Go(ctx context.Context, servicePath, serviceMethod string, args interface{}, reply interface{}, done chan *client.Call) *client.Call {
@@ -229,7 +238,7 @@ func (f *fakeClient) Go(ctx context.Context, servicePath, serviceMethod string, 
 				_ = reflect.TypeOf(reply)
 			}
 		}
-		call.Error = outcomeErr(o)
+		call.Error = outcomeErrCtx(ctx, o)
 		call.Done <- call
 	}()
 	return call
@@ -240,7 +249,7 @@ func (f *fakeClient) SendRaw(ctx context.Context, r *protocol.Message) (map[stri
 	if o == foOK {
 		return map[string]string{"addr": f.addr}, []byte{byte(idx)}, nil
 	}
-	return nil, nil, outcomeErr(o)
+	return nil, nil, outcomeErrCtx(ctx, o)
 }
 
 func (f *fakeClient) Connect(network, address string) error { return nil }
